@@ -50,7 +50,7 @@ FLOORS = {
               "map.text-roundtrip": 180, "map.contents-roundtrip": 120, "grid.save-roundtrip": 150, "determinism": 30, "invalid.refused": 30},
     "thorough": {"placement": 30000, "block": 50000, "component": 250000, "dimension": 400000, "link": 80000, "massfrac": 160000, "density": 120000,
                  "matmod": 3000, "custom-isotopics": 2000, "pin-lattice": 2000, "flags": 250000, "map.fixture": 8, "map.read-mine": 2500,
-                 "map.text-roundtrip": 1800, "map.contents-roundtrip": 1200, "grid.save-roundtrip": 2000, "determinism": 500, "invalid.refused": 450},
+                 "map.text-roundtrip": 1800, "map.contents-roundtrip": 1200, "grid.save-roundtrip": 2000, "determinism": 500, "invalid.refused": 400},
 }
 TIMEOUT = {"quick": 900, "thorough": 7200}
 ASSUMPTIONS = [
@@ -844,8 +844,6 @@ def _enrich(w, iso, family, e, A):
 
 def reference_composition(rd, c, mods, block_has_mods, rec):
     """-> dict(ctx, w (expanded mass fractions) or None, rho or None, skip_rho reason, absolute N or None)."""
-    from armi.materials import material as matmod
-
     mat = c["material"]
     Thot, Tin = c["Thot"], c["Tinput"]
     relevant = {k: v for k, v in mods.items() if k in ACCEPTED_MODS.get(mat, ())}
@@ -934,8 +932,6 @@ def doc_witness(spec, text, **kw):
 
 def compare_reactor(rec, spec, r, text):
     """Judge the built reactor against the spec. Returns number of mapped locations."""
-    from armi.reactor.components import component as compmod
-
     rd = Reading(spec)
     V = lambda key, what, **kw: rec.violation(key, what, doc_witness(spec, text, **kw))
     core = r.core
@@ -943,8 +939,6 @@ def compare_reactor(rec, spec, r, text):
     by_spec = {a["specifier"]: (an, a) for an, a in spec["assemblies"].items()}
     # ---- system
     o = spec["systems"]["core"]["origin"]
-    loc = core.spatialLocator
-    got_o = (float(loc.i), float(loc.j), float(loc.k)) if hasattr(loc, "i") else None
     rec.hit("system")
     try:
         xyz = tuple(float(x) for x in core.spatialLocator.getLocalCoordinates())
@@ -1114,7 +1108,6 @@ def compare_components(rec, rd, spec, text, b, bs, bn, ad, k, W):
                 X("component/pin-lattice-locations", "%s sits at %r, the lattice map puts its IDs at %r" % (c.name, locs, cells))
         # ---- flags
         rec.hit("flags")
-        nucs_now = set(c.getNuclides())
         if cs_.get("flags"):
             ef = words_to_flags(cs_["flags"], True)
         else:
@@ -1954,7 +1947,6 @@ def nontrivial(spec):
 
 
 def run_shard(spec, rec):
-    rng0 = random.Random(spec["rng"])
     kind = spec["kind"]
     if kind == "docs":
         run_docs(spec, rec)
